@@ -41,6 +41,10 @@ func c19Jobs(tier string) []Job {
 		reg := reg
 		jobs = append(jobs, Job{Name: "registry-closure " + reg, Run: func(r *Run) { c19Run(r, reg, 100, 0, 1) }})
 	}
+	for _, n := range []int{101, 130} { // registries longer than the default page of 100
+		n := n
+		jobs = append(jobs, Job{Name: fmt.Sprintf("large-registries-%d", n), Run: func(r *Run) { c19Large(r, n) }})
+	}
 	depth := 3
 	if tier == "thorough" {
 		depth = 5
@@ -343,4 +347,35 @@ func c19ScalarJustSet(w *World, a *Action) string {
 		}
 	}
 	return ""
+}
+
+// c19Large: all five registries hold n > 100 entries (imported by genesis); every list query must
+// return each entry exactly once for every page size 1..n+1 in both modes, with the right total,
+// and single-item queries must find the first, the hundredth and the last entry.
+func c19Large(r *Run, n int) {
+	g := LargeGenesis(n, "all")
+	scn := Scenario{Name: fmt.Sprintf("c19-large-%d", n), Ledger: BaseLedger(), Genesis: g}
+	w := scn.Build(KindDB)
+	r.States++
+	view := ViewOfGenesis(&g)
+	var u QUniverse
+	for _, i := range []int{0, 99, 100, n - 1} {
+		u.Attesters = append(u.Attesters, g.AttesterList[i].Attester)
+		u.Denoms = append(u.Denoms, g.PerMessageBurnLimitList[i].Denom)
+		u.addPair(g.TokenPairList[i].RemoteDomain, g.TokenPairList[i].RemoteToken)
+		u.Nonces = append(u.Nonces, noncePair{g.UsedNoncesList[i].SourceDomain, g.UsedNoncesList[i].Nonce})
+		u.Domains = append(u.Domains, g.TokenMessengerList[i].DomainId)
+	}
+	u.Attesters = append(u.Attesters, "04ff")
+	u.Denoms = append(u.Denoms, "unone")
+	u.Nonces = append(u.Nonces, noncePair{7, 7})
+	u.Domains = append(u.Domains, uint32(n+5))
+	r.Transitions++
+	r.Class("ok")
+	if errs := CheckQueries(w, view, u); len(errs) > 0 {
+		x := scn.Replay("actions", nil)
+		x.Expected, x.Observed = "every entry exactly once", joinMax(errs, 4)
+		r.Violate("C19 queries disagree with the history: "+firstWords(errs[0], 3), fmt.Sprintf("%d entries per registry (genesis): %s", n, joinMax(errs, 6)), x)
+	}
+	r.Distinct(fmt.Sprintf("large %d", n))
 }
